@@ -18,4 +18,4 @@ for o in obls:
         print(o.name, len(o.premises))
         for p in o.premises: print('  P',str(p)[:400].replace('\n',' '))
         print('  G',str(o.goal)[:600])
-        break
+        continue
